@@ -110,6 +110,12 @@ class RequireWalker(lua.BaseASTWalker):
 
             yield (require_path, use_game_loop, self._tokens[node.start_pos])
 
+        # Keep walking: require() calls can be nested in the arguments or
+        # the prefix expression of another call, such as type(require("x")).
+        for field in node._fields:
+            for t in self._walk(getattr(node, field)):
+                yield t
+
 
 def _evaluate_require(ast, file_path, package_lua, lua_path=None):
     """Evaluate require() statements in a Lua AST.
